@@ -55,6 +55,28 @@ func gz(b []byte) []byte {
 	return buf.Bytes()
 }
 
+// gzMembers compresses b as a series of gzip members (RFC 1952 2.2: a gzip file is a series of
+// members), one per size bytes of input
+func gzMembers(b []byte, size int) ([]byte, int) {
+	var buf bytes.Buffer
+	n := 0
+	for first := true; first || len(b) > 0; first = false {
+		k := size
+		if k > len(b) {
+			k = len(b)
+		}
+		zw := gzip.NewWriter(&buf)
+		zw.Write(b[:k])
+		zw.Close()
+		b = b[k:]
+		n++
+	}
+	return buf.Bytes(), n
+}
+
+// forceMember > 0: every gzip body of a body case is written with members of that size
+var forceMember int
+
 func split(b []byte, r *rng.R, mode int) [][]byte {
 	if len(b) == 0 {
 		return nil
@@ -230,11 +252,22 @@ func bodyScript(g gwcfg, in bodyIn, r *rng.R, gzipped bool, status int, chunkMod
 	if g.be == "string" {
 		hdrs = [][2]string{{"Content-Type", "text/plain"}}
 	}
+	members := 0
 	if gzipped {
-		payload = gz(payload)
+		size := 0
+		if forceMember > 0 {
+			size = forceMember
+		} else if r.Chance(1, 2) {
+			size = []int{16, 64, 1000, 16384}[r.Intn(4)]
+		}
+		if size > 0 {
+			payload, members = gzMembers(payload, size)
+		} else {
+			payload, members = gz(payload), 1
+		}
 		hdrs = append(hdrs, [2]string{"Content-Encoding", "gzip"})
 	}
-	return &script{status: status, headers: hdrs, chunks: split(payload, r, chunkMode), fixedLen: chunkMode == 0 && r.Bool()}
+	return &script{status: status, headers: hdrs, chunks: split(payload, r, chunkMode), fixedLen: chunkMode == 0 && r.Bool(), members: members}
 }
 
 // one case ready to be written
@@ -279,7 +312,7 @@ func buildBody(stream string, g gwcfg, in bodyIn, s *script, rep reply, gzipped 
 	}
 	js := map[string]interface{}{
 		"stream": stream, "router": g.router, "encoding": g.be, "is_collection": g.coll, "output_encoding": g.oe,
-		"concurrent_calls": g.cc, "raw_transport": g.raw, "gzip": gzipped, "backend_status": status, "chunks": len(s.chunks),
+		"concurrent_calls": g.cc, "raw_transport": g.raw, "gzip": gzipped, "gzip_members": s.members, "forward_accept_encoding": g.fwdAE, "backend_status": status, "chunks": len(s.chunks),
 		"backend_body": clip(in.text), "kind": kind,
 		"observed": map[string]interface{}{"status": rep.status, "body": clip(rep.body), "error": rep.err, "content_type": rep.header.Get("Content-Type")},
 	}
@@ -290,6 +323,12 @@ func buildBody(stream string, g gwcfg, in bodyIn, s *script, rep reply, gzipped 
 	rec.counts = append(rec.counts, "kind:"+kind)
 	if gzipped {
 		rec.counts = append(rec.counts, "gzip")
+		if s.members > 1 {
+			rec.counts = append(rec.counts, "gzip-multi-member")
+		}
+		if g.raw || g.fwdAE {
+			rec.counts = append(rec.counts, "gzip-reaches-lura-parser")
+		}
 	}
 	if in.isDoc {
 		d := depthOf(in.doc)
@@ -340,11 +379,28 @@ func chunksCoq(cs [][]byte) string {
 }
 
 func noopCase(stream string, router string, cc int, raw bool, s *script) {
-	g := gwcfg{router: router, be: "no-op", oe: "no-op", cc: cc, raw: raw}
+	noopCaseG(stream, gwcfg{router: router, be: "no-op", oe: "no-op", cc: cc, raw: raw}, s)
+}
+
+func noopG(router string, raw bool, ef string, fwdAE bool) gwcfg {
+	return gwcfg{router: router, be: "no-op", oe: "no-op", cc: 1, raw: raw, ef: ef, fwdAE: fwdAE}
+}
+
+func noopCaseG(stream string, g gwcfg, s *script) {
 	ref := wd.direct(s)
 	checkRef(ref, s)
-	progress(buildNoop(stream, router, cc, raw, s, ref, crashReply), "")
-	emitNoop(stream, router, cc, raw, s, ref, wd.call(g, s))
+	progress(buildNoop(stream, g, s, ref, crashReply), "")
+	emitNoop(stream, g, s, ref, wd.call(g, s))
+}
+
+func efCoq(ef string) string {
+	switch ef {
+	case "details":
+		return emit.App("FDetails", emit.Str("be1"))
+	case "code":
+		return "FCode"
+	}
+	return "FNone"
 }
 
 func checkRef(ref reply, s *script) {
@@ -353,17 +409,18 @@ func checkRef(ref reply, s *script) {
 	}
 }
 
-func emitNoop(stream string, router string, cc int, raw bool, s *script, ref, rep reply) {
-	buildNoop(stream, router, cc, raw, s, ref, rep).add()
+func emitNoop(stream string, g gwcfg, s *script, ref, rep reply) {
+	buildNoop(stream, g, s, ref, rep).add()
 }
 
-func buildNoop(stream string, router string, cc int, raw bool, s *script, ref, rep reply) caseRec {
+func buildNoop(stream string, g gwcfg, s *script, ref, rep reply) caseRec {
 	var rec caseRec
+	router, cc, raw := g.router, g.cc, g.raw
 	sent := flatten(ref.header)
 	got := flatten(rep.header)
 	obs := fmt.Sprintf("{| n_status := %s; n_headers := %s; n_body := %s; n_err := %s |}",
 		emit.Z(int64(rep.status)), hdrCoq(got), chunksCoq(cutLike(s.chunks, rep.body)), emit.Bool(rep.err != ""))
-	term := emit.App("CNoop", router, emit.Nat(cc), emit.Z(int64(s.status)), hdrCoq(sent), chunksCoq(s.chunks), obs)
+	term := emit.App("CNoop", router, emit.Nat(cc), efCoq(g.ef), emit.Z(int64(s.status)), hdrCoq(sent), chunksCoq(s.chunks), obs)
 	sig := ""
 	if cc > 1 {
 		sig = "noop-concurrent-calls"
@@ -375,7 +432,7 @@ func buildNoop(stream string, router string, cc int, raw bool, s *script, ref, r
 		}
 	}
 	js := map[string]interface{}{
-		"stream": stream, "router": router, "encoding": "no-op", "concurrent_calls": cc, "raw_transport": raw,
+		"stream": stream, "router": router, "encoding": "no-op", "concurrent_calls": cc, "raw_transport": raw, "backend_extra_config": g.ef, "forward_accept_encoding": g.fwdAE, "gzip_members": s.members,
 		"backend_status": s.status, "backend_headers": sent, "body_bytes": s.total(), "chunks": len(s.chunks), "first_chunk_sizes": sizes,
 		"fixed_length": s.fixedLen, "body_head": clip(head(s.body(), 64)),
 		"observed": map[string]interface{}{"status": rep.status, "headers": got, "body_bytes": len(rep.body), "error": rep.err,
@@ -399,7 +456,13 @@ func buildNoop(stream string, router string, cc int, raw bool, s *script, ref, r
 	for _, kv := range s.headers {
 		hs += kv[0] + "=" + kv[1] + ";"
 	}
-	canon := fmt.Sprintf("N|%s|%d|%v|%d|%s|%d|%d|%v|%s", router, cc, raw, s.status, hs, s.total(), len(s.chunks), s.fixedLen, token(s.body()))
+	if g.ef != "" {
+		rec.counts = append(rec.counts, "noop-extra_config:return_error_"+g.ef)
+	}
+	if g.fwdAE {
+		rec.counts = append(rec.counts, "noop-forward-accept-encoding")
+	}
+	canon := fmt.Sprintf("N|%s|%s|%v|%d|%v|%d|%s|%d|%d|%v|%s", router, g.ef, g.fwdAE, cc, raw, s.status, hs, s.total(), len(s.chunks), s.fixedLen, token(s.body()))
 	rec.term, rec.js, rec.sig, rec.canon, rec.nontrivial = term, js, sig, canon, s.total() > 32*1024 || len(s.chunks) > 1 || s.status != 200 || len(s.headers) > 2
 	return rec
 }
@@ -620,7 +683,7 @@ func main() {
 						continue
 					}
 					raw := r.Bool()
-					bodyCase("corpus", gwcfg{rt, c.be, c.coll, c.oe, cc, raw, false}, docIn(d, r, style{ws: r.Bool(), escapes: r.Intn(3)}), r, r.Chance(1, 4), 200+r.Intn(2), r.Intn(3))
+					bodyCase("corpus", gwcfg{rt, c.be, c.coll, c.oe, cc, raw, false, "", false}, docIn(d, r, style{ws: r.Bool(), escapes: r.Intn(3)}), r, r.Chance(1, 4), 200+r.Intn(2), r.Intn(3))
 				}
 			}
 		}
@@ -629,7 +692,7 @@ func main() {
 		for j, rt := range routers {
 			cs := forKind(kindOf(d))
 			c := cs[(i+j)%len(cs)]
-			bodyCase("corpus", gwcfg{rt, c.be, c.coll, c.oe, 1, j == 0, false}, docIn(d, r, style{}), r, true, 200, 2*j)
+			bodyCase("corpus", gwcfg{rt, c.be, c.coll, c.oe, 1, j == 0, false, "", false}, docIn(d, r, style{}), r, true, 200, 2*j)
 		}
 	}
 	// F-C13 (recorded finding): no-op endpoint with concurrent calls, large chunked body
@@ -653,6 +716,51 @@ func main() {
 			}
 		}
 	}
+	// no-op backends whose extra_config carries the http client's error-reporting flags (meaningless
+	// for no-op, ignored by the code): every kind of status must still pass with headers and body
+	for _, rt := range routers {
+		for _, ef := range []string{"details", "code"} {
+			for k, st := range []int{404, 503, 200, 201, 302, 500, 418, 204} {
+				var b []byte
+				if st != 204 {
+					b = randBytes(r, []int{300, 5000, 40000}[k%3], 1)
+				}
+				noopCaseG("corpus", noopG(rt, k%2 == 0, ef, false), &script{status: st, headers: headerSets[1+k%3], chunks: chunkBody(b, r, k%4), fixedLen: k%3 == 0})
+			}
+		}
+	}
+	// gzip bodies that reach lura itself: the endpoint forwards the client's Accept-Encoding: gzip (or the
+	// transport has compression handling off), so the default parser's gzip branch inflates - bodies of one
+	// member and of several members; for no-op the compressed bytes pass as they are
+	{
+		text := []byte(strings.Repeat("line of text 0123456789 abcdefghij\n", 1500))
+		for _, rt := range routers {
+			for vi, via := range []gwcfg{{raw: true}, {fwdAE: true}} {
+				for _, size := range []int{64, 16384, 0} {
+					forceMember = size
+					mk := func(be string, coll bool, oe string) gwcfg {
+						return gwcfg{router: rt, be: be, coll: coll, oe: oe, cc: 1 + vi, raw: via.raw, fwdAE: via.fwdAE}
+					}
+					ds := corpusDocs()
+					bodyCase("corpus", mk("json", false, "json"), docIn(ds[2], r, style{ws: true}), r, true, 200, 2)
+					bodyCase("corpus", mk("safejson", false, "json"), docIn(ds[3], r, style{}), r, true, 200, 0)
+					bodyCase("corpus", mk("json", true, "json-collection"), docIn(ds[12], r, style{}), r, true, 201, 1)
+					bodyCase("corpus", mk("safejson", false, "json"), docIn(ds[13], r, style{escapes: 2}), r, true, 200, 0)
+					big := &repText{unit: "0123456789abcdefghijklmnopqrstuvwxyz\n", n: 1500}
+					bodyCase("corpus", mk("string", false, "string"), bodyIn{text: []byte(big.String()), big: big}, r, true, 200, 2)
+					forceMember = 0
+					var payload []byte
+					members := 1
+					if size > 0 {
+						payload, members = gzMembers(text, size*8)
+					} else {
+						payload = gz(text)
+					}
+					noopCaseG("corpus", noopG(rt, via.raw, "", via.fwdAE), &script{status: 200, headers: [][2]string{{"Content-Type", "text/plain"}, {"Content-Encoding", "gzip"}, {"Vary", "Accept-Encoding"}}, chunks: chunkBody(payload, r, 1+vi), fixedLen: size == 0, members: members})
+				}
+			}
+		}
+	}
 	// instance reuse, sequential: ONE long-lived gateway per configuration (all gateways of this
 	// generator are built once and serve every case of their configuration) is sent consecutive
 	// requests whose documents / statuses / header sets / bodies differ: anything kept from an
@@ -671,20 +779,20 @@ func main() {
 		for _, rt := range routers {
 			for _, cc := range []int{1, 2} {
 				for _, d := range objSeq {
-					bodyCase("reuse-seq", gwcfg{rt, "json", false, "json", cc, false, false}, docIn(d, r, style{}), r, false, 200, 0)
+					bodyCase("reuse-seq", gwcfg{rt, "json", false, "json", cc, false, false, "", false}, docIn(d, r, style{}), r, false, 200, 0)
 				}
 				for _, d := range anySeq {
-					bodyCase("reuse-seq", gwcfg{rt, "safejson", false, "json", cc, true, false}, docIn(d, r, style{}), r, cc == 2, 200, 1)
+					bodyCase("reuse-seq", gwcfg{rt, "safejson", false, "json", cc, true, false, "", false}, docIn(d, r, style{}), r, cc == 2, 200, 1)
 				}
 			}
 			for _, d := range arrSeq {
-				bodyCase("reuse-seq", gwcfg{rt, "json", true, "json-collection", 1, false, false}, docIn(d, r, style{}), r, false, 201, 0)
+				bodyCase("reuse-seq", gwcfg{rt, "json", true, "json-collection", 1, false, false, "", false}, docIn(d, r, style{}), r, false, 201, 0)
 			}
 			for _, d := range arrSeq {
-				bodyCase("reuse-seq", gwcfg{rt, "json", true, "json", 1, false, false}, docIn(d, r, style{}), r, false, 200, 0)
+				bodyCase("reuse-seq", gwcfg{rt, "json", true, "json", 1, false, false, "", false}, docIn(d, r, style{}), r, false, 200, 0)
 			}
 			for _, t := range []string{"first text, rather long, 0123456789", "", "%d %s", "second", "\x00\xff", "first text, rather long, 0123456789"} {
-				bodyCase("reuse-seq", gwcfg{rt, "string", false, "string", 1, false, false}, bodyIn{text: []byte(t)}, r, false, 200, 0)
+				bodyCase("reuse-seq", gwcfg{rt, "string", false, "string", 1, false, false, "", false}, bodyIn{text: []byte(t)}, r, false, 200, 0)
 			}
 			for _, raw := range []bool{false, true} {
 				seq := []*script{
@@ -719,12 +827,12 @@ func main() {
 			kind int // 0 objects, 1 arrays, 2 any, 3 text, 4 no-op
 		}
 		confs := []cconf{
-			{gwcfg{"Gin", "json", false, "json", 1, false, true}, 0},
-			{gwcfg{"Mux", "json", false, "json", 2, true, true}, 0},
-			{gwcfg{"Gin", "safejson", false, "json", 1, true, true}, 2},
-			{gwcfg{"Mux", "json", true, "json-collection", 1, false, true}, 1},
-			{gwcfg{"Mux", "string", false, "string", 1, false, true}, 3},
-			{gwcfg{"Gin", "string", false, "json", 1, false, true}, 3},
+			{gwcfg{"Gin", "json", false, "json", 1, false, true, "", false}, 0},
+			{gwcfg{"Mux", "json", false, "json", 2, true, true, "", false}, 0},
+			{gwcfg{"Gin", "safejson", false, "json", 1, true, true, "", false}, 2},
+			{gwcfg{"Mux", "json", true, "json-collection", 1, false, true, "", false}, 1},
+			{gwcfg{"Mux", "string", false, "string", 1, false, true, "", false}, 3},
+			{gwcfg{"Gin", "string", false, "json", 1, false, true, "", false}, 3},
 			{gwcfg{router: "Gin", be: "no-op", oe: "no-op", cc: 1, raw: false, byID: true}, 4},
 			{gwcfg{router: "Mux", be: "no-op", oe: "no-op", cc: 1, raw: true, byID: true}, 4},
 		}
@@ -787,7 +895,7 @@ func main() {
 			}
 			note := fmt.Sprintf("one gateway hit by %d goroutines x %d requests over %d distinct backend replies (this one is reply 0)", goroutines, iters, distinct)
 			if cf.kind == 4 {
-				progress(buildNoop("reuse-concurrent", cf.g.router, 1, cf.g.raw, scs[0], refs[0], crashReply), note)
+				progress(buildNoop("reuse-concurrent", cf.g, scs[0], refs[0], crashReply), note)
 			} else {
 				progress(buildBody("reuse-concurrent", cf.g, ins[0], scs[0], crashReply, gzs[0], scs[0].status), note)
 			}
@@ -807,7 +915,7 @@ func main() {
 			for _, k := range keys {
 				v := all[k]
 				if cf.kind == 4 {
-					emitNoop("reuse-concurrent", cf.g.router, 1, cf.g.raw, scs[v.j], refs[v.j], v.rep)
+					emitNoop("reuse-concurrent", cf.g, scs[v.j], refs[v.j], v.rep)
 				} else {
 					emitBody("reuse-concurrent", cf.g, ins[v.j], scs[v.j], v.rep, gzs[v.j], scs[v.j].status)
 				}
@@ -828,7 +936,7 @@ func main() {
 							if be == "string" {
 								in.isDoc = false
 							}
-							bodyCase("scope", gwcfg{rt, be, coll, oe, cc, false, false}, in, r, false, 200, 0)
+							bodyCase("scope", gwcfg{rt, be, coll, oe, cc, false, false, "", false}, in, r, false, 200, 0)
 						}
 					}
 				}
@@ -842,7 +950,9 @@ func main() {
 			if st != 204 && st != 304 {
 				b = randBytes(r, []int{0, 1, 100, 5000}[i%4], i%3)
 			}
-			noopCase("scope", rt, 1, i%2 == 0, &script{status: st, headers: headerSets[i%len(headerSets)], chunks: chunkBody(b, r, i%4), fixedLen: i%3 == 0})
+			for _, ef := range []string{"", "details", "code"} {
+				noopCaseG("scope", noopG(rt, i%2 == 0, ef, false), &script{status: st, headers: headerSets[i%len(headerSets)], chunks: chunkBody(b, r, i%4), fixedLen: i%3 == 0})
+			}
 		}
 	}
 
@@ -861,7 +971,8 @@ func main() {
 		}
 		cs := forKind(kindOf(d))
 		c := cs[rr.Intn(len(cs))]
-		g := gwcfg{routers[rr.Intn(2)], c.be, c.coll, c.oe, 1 + rr.Intn(3), rr.Bool(), false}
+		g := gwcfg{routers[rr.Intn(2)], c.be, c.coll, c.oe, 1 + rr.Intn(3), rr.Bool(), false, "", false}
+		g.fwdAE = !g.raw && rr.Chance(1, 3)
 		bodyCase("random", g, docIn(d, rr, style{ws: rr.Bool(), escapes: rr.Intn(3)}), rr, rr.Chance(1, 5), 200+rr.Intn(2), rr.Intn(3))
 	}
 	// deep nesting 1..64
@@ -876,7 +987,7 @@ func main() {
 			d := deepDoc(rr, depth, top)
 			cs := forKind(kindOf(d))
 			c := cs[rr.Intn(len(cs))]
-			bodyCase("deep", gwcfg{routers[(depth+k)%2], c.be, c.coll, c.oe, 1 + rr.Intn(3), rr.Bool(), false}, docIn(d, rr, style{ws: rr.Bool(), escapes: rr.Intn(3)}), rr, rr.Chance(1, 5), 200, rr.Intn(3))
+			bodyCase("deep", gwcfg{routers[(depth+k)%2], c.be, c.coll, c.oe, 1 + rr.Intn(3), rr.Bool(), false, "", false}, docIn(d, rr, style{ws: rr.Bool(), escapes: rr.Intn(3)}), rr, rr.Chance(1, 5), 200, rr.Intn(3))
 		}
 	}
 	// string encoding: arbitrary bytes to the string render, valid UTF-8 to the json render
@@ -906,7 +1017,7 @@ func main() {
 				oe = "json"
 			}
 		}
-		g := gwcfg{routers[rr.Intn(2)], "string", rr.Bool(), oe, 1 + rr.Intn(3), rr.Bool(), false}
+		g := gwcfg{routers[rr.Intn(2)], "string", rr.Bool(), oe, 1 + rr.Intn(3), rr.Bool(), false, "", false}
 		bodyCase("string", g, bodyIn{text: text, big: big}, rr, rr.Chance(1, 6), 200+rr.Intn(2), rr.Intn(3))
 	}
 	// no-op: body sizes 0 B .. 512 KiB in flushed chunks, statuses, header sets
@@ -927,7 +1038,7 @@ func main() {
 				}
 			}
 			s := &script{status: st, headers: headerSets[rr.Intn(len(headerSets))], chunks: chunkBody(b, rr, rr.Intn(4)), fixedLen: rr.Chance(1, 3)}
-			noopCase("noop", routers[(si+k)%2], 1, rr.Bool(), s)
+			noopCaseG("noop", noopG(routers[(si+k)%2], rr.Bool(), []string{"", "", "details", "code"}[rr.Intn(4)], false), s)
 		}
 	}
 	// random sizes
@@ -939,7 +1050,7 @@ func main() {
 		if s.status == 304 {
 			s.status = 200
 		}
-		noopCase("noop", routers[rr.Intn(2)], 1, rr.Bool(), s)
+		noopCaseG("noop", noopG(routers[rr.Intn(2)], rr.Bool(), []string{"", "", "details", "code"}[rr.Intn(4)], false), s)
 	}
 	// probe stream of the recorded finding: no-op with concurrent_calls 2..3
 	for i, n := range []int{0, 100, 4096, 40000, 100000, 320000, 524288} {
@@ -956,7 +1067,7 @@ func main() {
 	bads := [][]byte{[]byte(""), []byte("{"), []byte(`{"a":1`), []byte(`{"a":}`), []byte(`[1,2`), []byte("nul"), []byte(`{"a":01}`), []byte(`{'a':1}`), []byte("\xff\xfe"), []byte(`{"a":1e}`), []byte(`"unterminated`), []byte(`{"a":"\ud800"`)}
 	for i, b := range bads {
 		for _, c := range []conf{{"json", false, "json"}, {"json", true, "json"}, {"safejson", false, "json"}} {
-			bodyCase("malformed", gwcfg{routers[i%2], c.be, c.coll, c.oe, 1 + i%3, i%2 == 0, false}, bodyIn{text: b, bad: true}, r, false, 200, i%3)
+			bodyCase("malformed", gwcfg{routers[i%2], c.be, c.coll, c.oe, 1 + i%3, i%2 == 0, false, "", false}, bodyIn{text: b, bad: true}, r, false, 200, i%3)
 		}
 	}
 
